@@ -1,0 +1,28 @@
+// Copyright 2025 The JSON Schema Go Project Authors. All rights reserved.
+// Use of this source code is governed by an MIT-style
+// license that can be found in the LICENSE file.
+
+//go:build verif
+
+// Hooks for the verification harness in /verif. This file is compiled only with
+// the "verif" build tag and adds no behaviour to the package.
+
+package jsonschema
+
+import (
+	"hash/maphash"
+	"reflect"
+)
+
+// VerifHashValue returns the hash that uniqueItems computes for v under seed.
+func VerifHashValue(seed maphash.Seed, v any) uint64 {
+	var h maphash.Hash
+	h.SetSeed(seed)
+	hashValue(&h, reflect.ValueOf(v))
+	return h.Sum64()
+}
+
+// VerifDereferenceJSONPointer exposes dereferenceJSONPointer.
+func VerifDereferenceJSONPointer(s *Schema, ptr string) (*Schema, error) {
+	return dereferenceJSONPointer(s, ptr)
+}
